@@ -485,7 +485,6 @@ impl RouterWorld {
     /// observed before the transaction.  Returns (per-hop (out, residual), exact?)
     fn formula_chain(&self, pre: &Snap, tok_in: usize, amount: &BigUint, hops: &[HopTxt]) -> Option<(Vec<(BigUint, BigUint)>, bool)> {
         let mut res: HashMap<u64, (BigUint, BigUint)> = HashMap::new();
-        let mut exact = true;
         let mut touched_fee: HashSet<u64> = HashSet::new();
         let mut cur_tok = tok_in;
         let mut cur = amount.clone();
@@ -496,7 +495,8 @@ impl RouterWorld {
             let q = &pre.pairs[ix];
             let (r1, r2) = res.get(&h.addr).cloned().unwrap_or((q.r1.clone(), q.r2.clone()));
             if touched_fee.contains(&h.addr) {
-                exact = false; // fee routing of the earlier visit moved the reserves in a way not recomputed here
+                // fee routing of the earlier visit moved the reserves in a way not recomputed here: no verdict
+                return Some((out, false));
             }
             let ab = if cur_tok == p.t1 && h.tok == p.t2 {
                 true
@@ -525,7 +525,7 @@ impl RouterWorld {
                 return None;
             };
             let fee = if q.fee_on { &charged * BigUint::from(q.special) / BigUint::from(M) } else { BigUint::zero() };
-            if q.fee_on {
+            if q.fee_on && !fee.is_zero() {
                 touched_fee.insert(h.addr);
             }
             let (nin, nout) = (&rin + &charged - &fee, &rout - &o);
@@ -534,7 +534,7 @@ impl RouterWorld {
             cur = o;
             cur_tok = h.tok;
         }
-        Some((out, exact))
+        Some((out, true))
     }
 
     fn expected_pays(tok_in: usize, hops: &[HopTxt], rs: &[(BigUint, BigUint)]) -> Vec<(u64, BigUint)> {
@@ -918,7 +918,7 @@ impl World for RouterWorld {
                     if !pre.active {
                         tr.fail("C14", "paused_router_blocks", &site, "createPair succeeded on a paused router");
                     }
-                } else if pre.reg.iter().any(|e| (e.0 as usize == t2 && e.1 as usize == t1)) {
+                } else if pre.reg.iter().any(|e| e.0 as usize == t2 && e.1 as usize == t1) {
                     tr.count("branch.create_dup_reversed_rejected");
                 }
                 ok
@@ -1110,6 +1110,9 @@ impl World for RouterWorld {
                     }
                 });
                 let ok = r.result_status == 0;
+                if !ok && std::env::var("VERIF_ERRLOG").is_ok() {
+                    eprintln!("MULTIERR {}", r.result_message);
+                }
                 if ok {
                     out_pays = got.iter().map(|(t, x)| (tok_id(t), x.clone())).collect();
                     tr.count(&format!("branch.multi_ok_hops_{}", hops.len()));
@@ -1136,12 +1139,17 @@ impl World for RouterWorld {
                             }
                             if !*exact {
                                 tr.count("branch.multi_inexact_formula");
-                            }
-                            if rs.iter().any(|r| !r.1.is_zero()) {
-                                tr.count("branch.multi_residual");
-                            }
-                            if hops.iter().zip(rs.iter()).any(|(h, r)| h.kind == "out" && r.1.is_zero()) {
-                                tr.count("branch.multi_zero_residual_skipped");
+                            } else {
+                                tr.count("branch.multi_formula_checked");
+                                if rs.iter().any(|r| !r.1.is_zero()) {
+                                    tr.count("branch.multi_residual");
+                                }
+                                if hops.iter().zip(rs.iter()).any(|(h, r)| h.kind == "out" && r.1.is_zero()) {
+                                    tr.count("branch.multi_zero_residual_skipped");
+                                }
+                                if hops.iter().any(|h| hops.iter().filter(|g| g.addr == h.addr).count() > 1) {
+                                    tr.count("branch.multi_pair_revisited");
+                                }
                             }
                         }
                         None => tr.fail("C14", "multihop_payments_formula", &site, "formulas say some hop must fail, yet the swap succeeded"),
@@ -1535,7 +1543,6 @@ impl RouterWorld {
                         2 => if need > one { &need - &one } else { one.clone() },
                         _ => &need + rng.big_range(&one, &(&need + &one)),
                     };
-                    cur = amount.clone();
                 }
                 (want.clone(), need, want)
             };
